@@ -492,7 +492,7 @@ Section Proofs.
          destruct (pass_check C st u p ev) as [st1 w]; cbn [fst snd] in *.
          destruct w as [w|]; [|split; rewrite ?E1, ?E5; eauto].
          destruct (S w I eq_refl) as [_ [usr [Eu [_ [Hv _]]]]]. rewrite Eu.
-         destruct (wants_rehash C usr c0) eqn:Ew; [|split; rewrite ?E1, ?E5; eauto].
+         destruct (wants_rehash C usr c0 && negb (too_long C p)) eqn:Ew; [|split; rewrite ?E1, ?E5; eauto].
          subst c0. split; acc; rewrite ?E1, ?E5; intros a0 pd; look; destruct (a0 =? a) eqn:Ea; keq.
          - intros E; inv E; reflexivity.
          - eauto.
